@@ -56,6 +56,10 @@ NoOut == [k |-> "none"]
 
 \* ---------------------------------------------------------------- initial state
 InitStore(p) == [v \in Range(p.vars) |-> Unset]
+\* everything the future of a runner depends on, for a runner that has just entered `node`
+EntryProj(p, node, store, visits) ==
+  [stack |-> <<[b |-> p.nodes[NodeIdx(p, node)].body, pc |-> 1]>>, wait |-> <<>>, cmd |-> NoCmd,
+   store |-> store, visits |-> visits, node |-> node, entry |-> store, ended |-> FALSE]
 InitRunner(p) ==
   [stack  |-> <<[b |-> p.nodes[1].body, pc |-> 1]>>,
    wait   |-> <<>>,                 \* <<>> or <<body id, index>> of the pending option group
@@ -66,6 +70,8 @@ InitRunner(p) ==
    entry  |-> InitStore(p),         \* variables as of the last node entry
    ended  |-> FALSE,
    jout   |-> [t \in Titles(p) |-> 0],   \* ghost: times each node was left through a jump
+   \* ghost: the behavioural projection the runner had at its last node entry
+   eproj  |-> EntryProj(p, p.nodes[1].title, InitStore(p), [t \in Titles(p) |-> 0]),
    \* --- result of the current public call
    mode   |-> "idle",               \* "run" while a call is executing statements
    out    |-> NoOut,
@@ -174,10 +180,12 @@ ExecJump(p, s, stmt) ==
            cur == p.nodes[NodeIdx(p, s.node)]
            counted == IF Bug.visitOnEntry THEN tgt ELSE cur
            s1 == Log(s, r.log)
+           newVisits == IF counted.tracking = "never" THEN s.visits
+                        ELSE [s.visits EXCEPT ![counted.title] = @ + 1]
        IN [s1 EXCEPT
              \* a visit is completed when the node is LEFT through a jump (C11)
-             !.visits = IF counted.tracking = "never" THEN @
-                        ELSE [@ EXCEPT ![counted.title] = @ + 1],
+             !.visits = newVisits,
+             !.eproj = EntryProj(p, tgt.title, s.store, newVisits),
              !.jout = [@ EXCEPT ![cur.title] = @ + 1],
              !.entry = s.store,
              !.stack = IF Bug.jumpKeepsStack THEN Append(@, [b |-> tgt.body, pc |-> 1])
@@ -306,6 +314,9 @@ Restore(p, s, snap) ==
                  !.wait = IF Bug.restoreKeepsWaiting THEN @ ELSE <<>>,
                  !.cmd = IF Bug.restoreKeepsWaiting THEN @ ELSE NoCmd,
                  !.ended = FALSE,
+                 !.eproj = EntryProj(p, snap.node, snap.vars, snap.visits),
+                 !.jout = [t \in DOMAIN s.jout |->
+                             IF p.nodes[NodeIdx(p, t)].tracking = "never" THEN s.jout[t] ELSE snap.visits[t]],
                  !.mode = "idle", !.out = NoOut, !.writes = <<>>, !.fcalls = <<>>, !.ccalls = <<>>]
 
 \* the behavioural projection of a runner: everything its future depends on
